@@ -14,7 +14,7 @@ from harness.common import REPO, Run
 from harness.tlc import make_cfg, run_tlc
 
 PROPS = ["RightContainer", "FoundAgain", "AutoNamesFresh", "MergeIsUnionOtherWins"]
-SAMPLES = ["lpod_styles.odt", "styled_table.ods", "example.odt", "span_style.odt", "simple_table.ods", "base_text.odt"]
+SAMPLES = ["lpod_styles.odt", "styled_table.ods", "example.odt", "span_style.odt", "simple_table.ods", "base_text.odt", "minimal_hidden.ods", "test_col_cell.ods"]
 NAMES = ["verifA", "verifB", "Standard", "odfdo_auto_7", "odfdo_auto_x", "Text_20_body"]
 
 
@@ -87,8 +87,13 @@ def rand_history(seed):
             std = fam in ("paragraph", "text", "table-cell", "table")
             mode = "auto-unnamed" if burst else rng.choice(["common", "auto-named", "auto-unnamed", "default"] if std else ["named", "named-default"])
             name = "" if mode in ("auto-unnamed", "default") else rng.choice(NAMES)
-            o = {"op": "insert", "d": "doc", "family": fam, "name": name, "via": rng.choice(["own", "own", "arg", "other"]),
+            o = {"op": "insert", "d": "doc", "family": fam, "name": name, "via": rng.choice(["own", "own", "arg", "other", "refamily"]),
                  "automatic": mode in ("auto-named", "auto-unnamed"), "default": mode in ("default", "named-default") and (std or fam == "font-face")}
+            if o["via"] == "refamily" and o["name"]:
+                # over a style of that family and name that is already there (it must be replaced, not doubled)
+                there = sorted({st["name"] for c in ev["pre"].values() for st in c if st.get("family") == fam and st.get("name")})
+                if there and rng.random() < 0.8:
+                    o["name"] = rng.choice(there)
             ev["op"] = o
             ev.update(sl.do_insert(doc, o))
             if "exc" not in ev and rng.random() < 0.3:
@@ -99,6 +104,8 @@ def rand_history(seed):
         elif kind == "merge":
             try:
                 doc.merge_styles_from(other)
+                # the number / currency / ... styles that came along: found again under family + name, once each
+                ev["data_styles_wrong"] = sl.merged_data_styles_ok(doc, other)
             except Exception as ex:  # noqa: BLE001
                 ev["exc"] = repr(ex)[:200]
         elif kind == "set_table_displayed":
